@@ -362,15 +362,7 @@ def isObj : Val → Bool
   | _ => false
 
 def stepDev (tr : Val) (o : Obj) (t : String) : List String :=
-  let lenValueRegion (k v : String) : List String :=
-    -- §15.4.5.1 3.c–d convert an object-valued Desc.[[Value]] twice, arrayUint32 once
-    match key? k, val? v with
-    | some .length, some (.obj _) =>
-      if o.isArr ∧ ((canPutDetails o .length).1 ∨ (t.splitOn "/").head? = some "def") then ["length_value_converted_once"] else []
-    | _, _ => []
   match t.splitOn "/" with
-  | "put" :: k :: v :: _ => lenValueRegion k v
-  | "def" :: k :: v :: _ => lenValueRegion k v
   | "call" :: m :: argTok :: _ :: rest =>
     let O := modelOps env
     let script : List Conv := match rest with | [sc] => (script? sc).getD [] | _ => []
@@ -389,11 +381,6 @@ def stepDev (tr : Val) (o : Obj) (t : String) : List String :=
           | .err _ _ => []
         | .err _ _ => []
        else [])
-      -- Array.prototype.toString hands its arguments on to join (§15.4.4.2: an empty argument list)
-      ++ (if name = "toString" ∧ argAt args 0 ≠ .undef then ["toString_forwards_arguments"] else [])
-      -- reverse and sort return call.This, which is the primitive for a primitive receiver (§15.4.4.8/11: O)
-      ++ (if (name = "reverse" ∨ name = "sort" ∨ name = "sortNum" ∨ name = "sortInf") ∧ tr ≠ .recv
-          then ["reverse_sort_return_primitive_this"] else [])
     | none => []
   | _ => []
 
